@@ -357,10 +357,11 @@ fn infnorm<const R: usize, const C: usize>() {
     }
     vassert!(hit, "inf_norm {:e} is not a row sum (max {:e})", got, best);
 }
-// @axioms c04_lse_: exp_pos exp_range exp_ratio exp_log log_mul
+// @axioms c04_lse_: exp_pos exp_zero exp_ratio exp_log log_mul
 // @bound c04_lse_: length L (instance), log-domain inputs in ±1e4
-// @claim c04_lse_: no exponential argument of logsumexp / logmeanexp can exceed 709.78 (no overflow for large-magnitude inputs); for L = 1 the result is the input itself (R)
+// @claim c04_lse_: no exponential argument of logsumexp / logmeanexp can exceed 709.78 and the logarithm's argument cannot underflow to 0 (no overflow / underflow for large-magnitude inputs); for L = 1 the result is the input itself (R)
 fn lse<const L: usize>() {
+    crate::rt::range_checks_on();
     let x: [f64; L] = inp::arr(0);
     let mut i = 0;
     while i < L {
@@ -378,7 +379,9 @@ fn lse<const L: usize>() {
         // (symbolically only the overflow obligations matter here; natively a NaN / inf result is the failure)
         #[cfg(not(kani))]
         vassert!(a.is_finite() && b.is_finite(), "log-domain reduction is not finite: {:e} {:e}", a, b);
-        let _ = (a, b);
+        // keep the computation in the sliced formula (a tautology over the reals that mentions both results)
+        #[cfg(kani)]
+        crate::rt::record(!(a < b) || a <= b);
     }
 }
 harness!(name=c04_vec_add_0, prop=C04, mode=U, kind=normal, tier=quick, unwind=20, { vec_add::<0>() });
